@@ -8,8 +8,8 @@ import (
 	"fmt"
 	"io"
 	"net"
-	"os"
 	"net/netip"
+	"os"
 	"strings"
 	"syscall"
 	"time"
@@ -155,6 +155,15 @@ func (w *World) NewServer(routerID string) *corebgp.Server {
 	}
 	w.Server = s
 	return s
+}
+
+// ExtraPeerOptions are appended to the options of every AddPeer made through World.AddPeer (scenario twins
+// that run a whole family under another configuration, props.optTwin).
+var ExtraPeerOptions []corebgp.PeerOption
+
+// AddPeer is Server.AddPeer with the twin's extra options appended.
+func (w *World) AddPeer(cfg corebgp.PeerConfig, p corebgp.Plugin, opts ...corebgp.PeerOption) error {
+	return w.Server.AddPeer(cfg, p, append(append([]corebgp.PeerOption{}, opts...), ExtraPeerOptions...)...)
 }
 
 // Serve starts Server.Serve on listeners bound to the given addresses in a
